@@ -347,7 +347,9 @@ def _embed_job(args):
     joint = []
     # country codes of the embedded economies: plain ones, and codes that extend one another after an underscore
     codes = rnd.choice([['EA', 'EB', 'EC'], ['EA', 'EA_2', 'EB'], ['Z', 'Z_9', 'K9'], ['NA', 'NA_B', 'NA_B_2'],
-                        ['Ea', 'EA', 'eA']])      # ... and codes that differ in letter case only
+                        ['Ea', 'EA', 'eA'],       # ... codes that differ in letter case only
+                        ['CA_ON', 'US', 'MX_1'], ['N_A', 'W', 'S_B_2']])   # ... and codes with an underscore whose first
+    #                                                                        chunk is not itself a country of the model
     # explicit currencies: distinct strings, in some jobs distinct only in letter case
     curs = rnd.choice([None, None, ['Kr', 'KR', 'kr']])
     for i, (bp, decl) in enumerate(members):
@@ -359,8 +361,19 @@ def _embed_job(args):
         else:
             mapping = {cc: (codes[i] + cc, curs[i] if curs else 'CUR' + codes[i]) for cc in ccs}
         p = recountry(prog, mapping)
-        solo_progs.append(p + [{'op': 'MaxTime', 'value': T}])
-        joint.extend(p)
+        # the same exogenous setting / initial condition may be addressed through the sector object or, as documented,
+        # through the model with the sector's full code as a string; the route is drawn per statement and is the same in
+        # the stand-alone and in the joint build - only the full code differs (it gains the country prefix)
+        routed = [k for k, st in enumerate(p) if st['op'] in ('Exogenous', 'IC') and rnd.random() < 0.5]
+        n_solo = len([st for st in p if st['op'] == 'Country'])
+        ps, pj = copy.deepcopy(p), copy.deepcopy(p)
+        for k in routed:
+            cc, code = p[k]['sector'].split('.', 1)
+            ps[k]['via'] = pj[k]['via'] = 'fullcode'
+            ps[k]['fullcode'] = code if n_solo == 1 else cc + '_' + code
+            pj[k]['fullcode'] = cc + '_' + code
+        solo_progs.append(ps + [{'op': 'MaxTime', 'value': T}])
+        joint.extend(pj)
     if with_ext:
         pos = rnd.choice([0, len(joint)])
         joint.insert(pos, {'op': 'External'})
@@ -469,7 +482,9 @@ def run(rep):
             return False      # (a sector inside the ExternalSector country: the EXT code is not a constructor argument)
         return all('_' not in d['code'] and '_' not in d['good'] and '_' not in d['lab'] for d in bp['sectors'])
     chosen = [b for b in chosen if plain(bps[b['name']])]
-    jobs = [(bps[b['name']], b['decl'], rep.seed) for b in chosen]
+    for b in chosen:
+        b['seed'] = modelcheck.case_seed(rep.seed, b['decl'])
+    jobs = [(bps[b['name']], b['decl'], b['seed']) for b in chosen]
     # embedding: economies with a single currency and no external sector
     singles = [n for n in sorted(bps) if bps[n]['wellformed'] and bps[n]['external'] == 'none'
                and len({c['cur'] for c in bps[n]['countries']}) == 1 and not n.startswith('JOIN') and plain(bps[n])]
@@ -492,7 +507,7 @@ def run(rep):
     with concurrent.futures.ProcessPoolExecutor(max_workers=16) as ex:
         r1 = list(ex.map(_rename_job, jobs, chunksize=2))
         r2 = list(ex.map(_embed_job, ejobs, chunksize=1))
-    cases = [{'kind': 'rename', 'name': b['name'], 'decl': b['decl'], 'seed': rep.seed} for b in chosen] + \
+    cases = [{'kind': 'rename', 'name': b['name'], 'decl': b['decl'], 'seed': b['seed']} for b in chosen] + \
             [{'kind': 'embed', 'members': [[m[0]['name'], m[1]] for m in j[0]], 'seed': j[1], 'with_ext': j[2]} for j in ejobs]
     results = r1 + r2
     for r in results:
